@@ -85,7 +85,7 @@ func matchesLigature(l tables.Ligature, glyphsFromSecond []GID) bool {
 // return `true` is we should apply this lookup to the glyphs in `c`,
 // which are assumed to be non empty
 func (c *wouldApplyContext) wouldApplyGSUB(table tables.GSUBLookup) bool {
-	index, ok := table.Cov().Index(gID(c.glyphs[0]))
+	index, ok := coverageIndex(table.Cov(), gID(c.glyphs[0]))
 	switch data := table.(type) {
 	case tables.SingleSubs, tables.MultipleSubs, tables.AlternateSubs, tables.ReverseChainSingleSubs:
 		return len(c.glyphs) == 1 && ok
@@ -131,7 +131,7 @@ func (c *wouldApplyContext) wouldApplyGSUB(table tables.GSUBLookup) bool {
 func (c *otApplyContext) applyGSUB(table tables.GSUBLookup) bool {
 	glyph := c.buffer.cur(0)
 	glyphID := glyph.Glyph
-	index, ok := table.Cov().Index(gID(glyphID))
+	index, ok := coverageIndex(table.Cov(), gID(glyphID))
 	if !ok {
 		return false
 	}
